@@ -94,7 +94,11 @@ func c04Case(r *evid.Run, tier string, idx int, g *rng.R) {
 		}
 		ns := refeval.NodeSet(adoc.SortDoc(pick))
 		lib := w.m.Lib(ns).(xsel.NodeSet)
-		if g.Bool() {
+		if g.P(35) {
+			// arbitrary order: a caller may hand over a node-set in any order
+			rng.Shuffle(g, lib)
+			vals = append(vals, tv{ns, lib, "node-set:shuffled"})
+		} else if g.Bool() {
 			for a, b := 0, len(lib)-1; a < b; a, b = a+1, b-1 {
 				lib[a], lib[b] = lib[b], lib[a]
 			}
